@@ -11,6 +11,7 @@ import (
 
 	"github.com/semihalev/sdns/internal/cache"
 	"github.com/semihalev/sdns/internal/verif/vlib"
+	"github.com/semihalev/sdns/middleware/ratelimit"
 )
 
 // "Writers never wait on a global lock", judged dynamically.
@@ -43,6 +44,7 @@ type stallOps[V any] struct {
 	setcap func(k, id uint64, capv int64) // the capped insert under test (SetWithCap / Cache.Add)
 	others func(keys []uint64)            // unrelated work on the given keys
 	each   func(f func(k uint64) bool)    // the iteration used to pin a segment (nil: m.ForEach)
+	watch  func(keys []uint64)            // read-only API calls made by bystanders (Len, lookups of unrelated keys)
 	capv   int64
 }
 
@@ -81,9 +83,16 @@ func stallScenario[V any](what string, o stallOps[V], d int, seed uint64) (strin
 	if d > 3 {
 		d = 3
 	}
-	s1 := uint(r.Intn(int(nseg)))
+	if nseg < 64 {
+		return "setup-failed", "-"
+	}
+	// the pinned segment has a HIGH index and the unrelated work happens at
+	// LOWER indices: an API that collects several segment locks in index order
+	// (and parks on the pinned one while holding the earlier ones) then stands
+	// in the way of those writers
+	s1 := nseg/2 + uint(r.Intn(int(nseg/2)-4))
 	pin := s1 + uint(d)
-	s2 := s1 + nseg/2
+	s2 := s1 - nseg/2
 	kX := keyIn(pin)
 	kE1, kE2 := keyIn(s2+1), keyIn(s2+1)
 	kW1, kW2 := keyIn(s1), keyIn(s2)
@@ -166,6 +175,21 @@ func stallScenario[V any](what string, o stallOps[V], d int, seed uint64) (strin
 	default:
 	}
 
+	// bystanders using the read-only API (Len, SegmentCount, lookups of
+	// unrelated keys) while writer 1 is parked: whatever they do must not get
+	// in the way of the writers below
+	obsDone := make(chan struct{})
+	go func() {
+		defer close(obsDone)
+		if o.watch != nil {
+			o.watch(otherKeys)
+		}
+	}()
+	for i := 0; i < 20; i++ {
+		runtime.Gosched()
+	}
+	time.Sleep(2 * time.Millisecond)
+
 	w2Done, w3Done := make(chan struct{}), make(chan struct{})
 	go func() { defer close(w2Done); o.setcap(kW2, 3, capv) }()
 	go func() { defer close(w3Done); o.others(otherKeys) }()
@@ -177,7 +201,7 @@ func stallScenario[V any](what string, o stallOps[V], d int, seed uint64) (strin
 		w1Parked = false
 	default:
 	}
-	all := finish(w1Done, w2Done, w3Done)
+	all := finish(w1Done, w2Done, w3Done, obsDone)
 	detail := fmt.Sprintf("%s: %d segments, capacity %d, segment %d pinned by a ForEach callback, writer 1 (segment %d) parked in its toll walk", what, nseg, capv, pin%nseg, s1%nseg)
 	switch {
 	case !w2ok && w1Parked:
@@ -185,7 +209,7 @@ func stallScenario[V any](what string, o stallOps[V], d int, seed uint64) (strin
 			"%s; an over-capacity SetWithCap on segment %d whose toll is paid entirely by segment %d did not finish within %v", detail, s2%nseg, (s2+1)%nseg, stallTimeout)
 	case !w3ok && w1Parked:
 		return "w3-stalled", fail("conc/stall/op-waited-on-unrelated-lock",
-			"%s; Set/Get/Has/Del/PutIfNotExists/SetWithCap on segments %d.. did not finish within %v", detail, (s2+3)%nseg, stallTimeout)
+			"%s; while bystanders call Len()/lookups, Set/Get/Has/Del/PutIfNotExists/SetWithCap on segments %d.. did not finish within %v", detail, (s2+3)%nseg, stallTimeout)
 	case !all:
 		return "deadlock", fail("conc/stall/deadlock", "%s; goroutines did not finish after the pin was released", detail)
 	case !w1Parked:
@@ -207,6 +231,15 @@ func execStall(a []string) vlib.Res {
 			m:      m,
 			val:    func(id uint64) uint64 { return id },
 			setcap: func(k, id uint64, capv int64) { m.SetWithCap(k, id, capv) },
+			watch: func(keys []uint64) {
+				for i := 0; i < 3; i++ {
+					m.Len()
+					m.SegmentCount()
+					for _, k := range keys {
+						m.Has(k)
+					}
+				}
+			},
 			others: func(keys []uint64) {
 				for i, k := range keys {
 					m.Set(k, uint64(i))
@@ -236,6 +269,14 @@ func execStall(a []string) vlib.Res {
 			val:    func(id uint64) any { return boxFor(id) },
 			setcap: func(k, id uint64, _ int64) { c.Add(k, boxFor(id)) },
 			each:   func(f func(k uint64) bool) { c.ForEach(func(k uint64, _ any) bool { return f(k) }) },
+			watch: func(keys []uint64) {
+				for i := 0; i < 3; i++ {
+					c.Len()
+					for _, k := range keys {
+						c.Get(k)
+					}
+				}
+			},
 			others: func(keys []uint64) {
 				for i, k := range keys {
 					// uncapped inner Set so that these stay local to their segment
@@ -634,4 +675,130 @@ func execGate(a []string) vlib.Res {
 	}
 	impl, or := gateScenario(a[0], vlib.Atoi(a[1]), vlib.AtoU64(a[2]))
 	return vlib.Res{Impl: impl, Oracle: or, Tags: "nt,conc,gate"}
+}
+
+// Limiter store under concurrency: LimiterStore has ONE lock, so every method
+// must be one critical section. A busy holder keeps the store's write lock
+// (export), the racing calls arrive and park, then all run.
+//
+//	mode 0: Cleanup(30min) || Get(k_i) for keys that have been idle for an hour
+//	        (lastSeen shifted back through the export, no sleeping). In either
+//	        serial order every k_i is stored afterwards (Cleanup first: Get
+//	        re-creates it; Get first: the touch makes it fresh) and the limiter
+//	        Get handed out is the stored one.
+//	mode 1: the same with half of the keys fresh: Cleanup must not touch them.
+//	mode 2: several Get(k) of ONE new key: all callers get the same limiter.
+//	mode 3: Gets of new keys into a full store: Len stays within max.
+func limRace(mode int, seed uint64) (string, string) {
+	r := vlib.NewR(seed)
+	n := 8 + r.Intn(40)
+	mx := n + 8
+	if mode == 3 {
+		mx = 4 + r.Intn(8)
+	}
+	s := ratelimit.NewLimiterStore(mx, vlib.Pick(r, []int{0, 1, 10}))
+	keys := make([]uint64, n)
+	used := map[uint64]bool{}
+	for i := range keys {
+		k := r.U64()
+		for used[k] {
+			k = r.U64()
+		}
+		if i == 0 && r.Chance(1, 4) {
+			k = 0
+		}
+		used[k] = true
+		keys[i] = k
+	}
+	aged := map[uint64]bool{}
+	if mode <= 1 {
+		for i, k := range keys {
+			s.Get(k)
+			if mode == 0 || i%2 == 0 {
+				ratelimit.VerifLimiterAge(s, k, time.Hour)
+				aged[k] = true
+			}
+		}
+	}
+	type got struct {
+		k uint64
+		l any
+	}
+	res := make(chan got, 4*n)
+	var wg, started sync.WaitGroup
+	spawn := func(f func()) {
+		wg.Add(1)
+		started.Add(1)
+		go func() { defer wg.Done(); started.Done(); f() }()
+	}
+	ratelimit.VerifLimiterLock(s)
+	switch mode {
+	case 0, 1:
+		spawn(func() { s.Cleanup(30 * time.Minute) })
+		for _, k := range keys {
+			k := k
+			spawn(func() { res <- got{k, ratelimit.VerifLimiterID(s.Get(k))} })
+		}
+	case 2:
+		for i := 0; i < 6; i++ {
+			spawn(func() { res <- got{keys[0], ratelimit.VerifLimiterID(s.Get(keys[0]))} })
+		}
+	default:
+		for _, k := range keys {
+			k := k
+			spawn(func() { s.Get(k) })
+		}
+	}
+	started.Wait()
+	for i := 0; i < 50; i++ {
+		runtime.Gosched()
+	}
+	time.Sleep(3 * time.Millisecond)
+	ratelimit.VerifLimiterUnlock(s)
+	done := make(chan struct{})
+	go func() { wg.Wait(); close(done) }()
+	if !waitClosed(done, 2*setupTimeout) {
+		return "deadlock", fail("conc/limrace/deadlock", "mode %d: calls on the limiter store did not finish", mode)
+	}
+	close(res)
+	what := fmt.Sprintf("LimiterStore max=%d, %d keys, mode %d", mx, n, mode)
+	if s.Len() > max(mx, 1) {
+		return "over", fail("conc/limrace/over-capacity", "%s: Len()=%d at rest", what, s.Len())
+	}
+	if len(ratelimit.VerifLimiterKeys(s)) != s.Len() {
+		return "miscount", fail("conc/limrace/miscounted", "%s: Len()=%d, %d keys stored", what, s.Len(), len(ratelimit.VerifLimiterKeys(s)))
+	}
+	first := map[uint64]any{}
+	for g := range res {
+		if mode == 2 {
+			if p, ok := first[g.k]; ok && p != g.l {
+				return "twins", fail("conc/limrace/two-limiters-for-one-key", "%s: concurrent Get(%d) calls were handed different limiters", what, g.k)
+			}
+		}
+		first[g.k] = g.l
+		if !ratelimit.VerifLimiterHas(s, g.k) {
+			return "lost", fail("conc/limrace/fresh-key-removed",
+				"%s: key %d was looked up (touched or re-created) while Cleanup ran, yet it is not stored afterwards (idle before: %v)", what, g.k, aged[g.k])
+		}
+		if cur := ratelimit.VerifLimiterID(s.Get(g.k)); cur != g.l {
+			return "orphan", fail("conc/limrace/orphaned-limiter",
+				"%s: the limiter Get(%d) handed out during the race is not the one stored afterwards", what, g.k)
+		}
+	}
+	if mode == 1 {
+		for _, k := range keys {
+			if !aged[k] && !ratelimit.VerifLimiterHas(s, k) {
+				return "lost", fail("conc/limrace/fresh-key-removed", "%s: fresh key %d removed by Cleanup", what, k)
+			}
+		}
+	}
+	return "ok", "ok"
+}
+
+func execLimRace(a []string) vlib.Res {
+	if len(a) != 2 {
+		return vlib.Res{Impl: "bad-op"}
+	}
+	impl, or := limRace(vlib.Atoi(a[0]), vlib.AtoU64(a[1]))
+	return vlib.Res{Impl: impl, Oracle: or, Tags: "nt,conc,limrace"}
 }
